@@ -20,6 +20,13 @@ const (
 
 var enabled atomic.Bool
 
+// lockOnly: only lock acquisitions and goroutine starts are scheduling points
+// (event granularity: the order of critical sections is still the
+// simulator's decision, which is what makes a step's outcome deterministic).
+var lockOnly atomic.Bool
+
+func SetLockOnly(v bool) { lockOnly.Store(v) }
+
 // cur is the scheduler of the current run (one run at a time per process).
 var cur atomic.Pointer[Sched]
 
@@ -121,7 +128,7 @@ func (s *Sched) park(g *G) {
 
 // Yield is a scheduling point.
 func Yield(site string) {
-	if !enabled.Load() {
+	if !enabled.Load() || lockOnly.Load() {
 		return
 	}
 	s := cur.Load()
